@@ -185,6 +185,9 @@ type cluster struct {
 	killFold        bool // the next coalesce: the sync agent's sfold child dies from a signal
 	killXfer        bool // the next snapshot-file transfer: the sender dies from a signal after the receiver sized the file (real agent only)
 	ssyncFaultArmed bool
+	restartAgent    bool // armed: the source's sync agent dies with the next snapshot-file sender and is restarted
+	restartingAgent bool
+	agentOutage     map[int]int    // per node: 1 = the next status poll falls into the outage, 2 = the new agent answers
 	agentPorts      []int          // ports of the receivers the real agents started in this execution
 	senderPort      map[string]int // "node/process id" of a sender -> the receiver port it talks to
 	finishing       map[int]bool   // ports whose transfer completed: the receiver there is ending
